@@ -7,3 +7,5 @@ import MenelausVerif.Model.Lifecycle
 import MenelausVerif.Props.C13
 import MenelausVerif.Props.C01
 import MenelausVerif.Props.C02
+import MenelausVerif.Props.C17
+import MenelausVerif.Props.C17PH
